@@ -141,7 +141,8 @@ def _split_into_branches(
             # The next branch is the first neurite. It starts with the second row of
             # the file, so this is its type (`current_type` is still unset or stale
             # here).
-            all_types.append(int(content[1, 1]))
+            if len(content) > 1:
+                all_types.append(int(content[1, 1]))
 
         # Either append the current point to the branch, or add the branch to
         # `all_branches`.
@@ -154,8 +155,9 @@ def _split_into_branches(
             current_branch.append(int(current_ind))
 
     # Append the final branch (intermediate branches are already appended five lines
-    # above.)
-    all_branches.append(current_branch)
+    # above.) If the file consists only of a soma point, that branch already exists.
+    if len(current_branch) > 1 or len(all_branches) == 0:
+        all_branches.append(current_branch)
     return all_branches, all_types
 
 
